@@ -205,6 +205,9 @@ def _classify_selector(key: str, facts, sel) -> str:
         return 'loc' if not_sl else 'label lookup used although the index may be a slice'
     if text(sel) == res:
         return 'the whole (start, stop, step) tuple is used as the subscript'
+    if any(isinstance(x, ast.Call) and isinstance(x.func, ast.Attribute) and isinstance(x.func.value, ast.Name) and x.func.value.id == 'self'
+           and x.func.attr not in ('_locate_period_in_span', '_resolve_period_slice', '__getattr__', '__getitem__') for x in ast.walk(sel)):
+        raise Unknown(f'subscript `{text(sel)[:60]}` goes through a helper that was not read (several exits, try/except): which positions it selects is not decided')
     return f'subscript `{text(sel)[:60]}` is neither the resolved slice nor the located label'
 
 
